@@ -1,8 +1,10 @@
 import Bardolph.Proofs.SimLoad
 import Bardolph.Proofs.SimCalls
 import Bardolph.Proofs.SimVals
+import Bardolph.Proofs.SimTop
 /-!
-# C01 — the compiled code does what the source says (simulation, partial)
+# C01 — the compiled code does what the source says (simulation; scripts of the fragment with
+top-level routine definitions, through the loader)
 
 `Sem` is the source-level semantics (the specification), `Gen` the code generator, `Vm` the
 machine.  For every block of the fragment `Sim.FragBlock` (below) and every fuel: if the source
@@ -73,7 +75,13 @@ Why `V`: a routine that runs off its end leaves the `result` register as the las
 scratch on the machine — and on the REAL implementation — while `Sem` says `None`
 (`define f begin print 5 end  assign x [f]  print x` prints 5 twice on the real machine).  Calls as
 STATEMENTS need no such condition.
-Not covered: routine DEFINITIONS inside the block (the loader's relocation); calls in the arguments
+Routine DEFINITIONS at the TOP LEVEL of the script are covered by `C01_gen_sim_top` (below): for
+a script made of statements of the fragment and, between them, `defRoutine n ps body` with `body`
+in the fragment (`Sim.TopBlock V`), the hypothesis `RoutinesAt` is PROVED of the image
+`Loader.load` makes (`Sim.routinesAt_top`, `Proofs/SimTop.lean`), and the machine runs from its
+initial state — through the loader's `JUMP` over the routines — to `halted`.
+Not covered: routine definitions NESTED inside `if` / `repeat` / matrix bodies (legal, rare: the
+loader then shortens the jumps that span them); calls in the arguments
 of `printf` (values already queued for the `printf` would have to survive the call: the relation
 in a callee has no pending output).
 
@@ -105,14 +113,27 @@ The full statement (`gen_sim`, DESIGN §6 C01), of which the theorems below are 
         ∃ k, (run (Loader.load code) k (Vm.init lights)).status = .halted ∧
           (Vm.finish (run (Loader.load code) k (Vm.init lights))).trace = .flush :: σ'.vm.trace
 
-for every well-formed script `b` (all statement forms, routines defined anywhere at top level).
-`C01_gen_sim_loaded` is exactly this statement with `WellFormed` replaced by `Sim.FragBlock`
-(a script of the fragment defines no routines, so its calls can only be to built-ins).
+for every well-formed script `b` (all statement forms, routines defined anywhere).
+`C01_gen_sim_top` is exactly this statement with `WellFormed b` replaced by
+`Sim.TopBlock V b ∧ Closed.wsBlock Kn false false false b = true`: statements of the fragment and
+top-level routine definitions with bodies of the fragment (those in `V` ending with `return`),
+accepted by the scope check that the compiler makes (`Closed.wsBlock`, the predicate of C06:
+calls of known names only, `return` only inside routines, `break` only inside loops, no
+definition inside a routine).  The scope check is used for one thing: `Closed.closed_stmt` (C06)
+says that every jump of a statement's code stays inside that code, hence is left alone by the
+loader's relocation (`Sim.reloc_closed`).  `C01_gen_sim_loaded` is the special case without
+definitions (there with no scope hypothesis).
+How `C01_gen_sim_top` is proved (`Proofs/SimTop.lean`): the compiled script is a sequence of
+items, main-statement code or `ROUTINE f; body; END f` (`Sim.itemsOf`); `Sim.load_items` computes
+`Loader.load` of such a sequence exactly — `classify`, the routine segment, the main segment
+with every jump unchanged, the routine table; `Sim.spans_forall2` + `Sim.find_rev_forall2` relate
+the table (searched from its reversed end: the LAST definition of a name wins, as a dict) to
+`Sem.collect` reversed, which is what `Sem.run` searches; `Sim.top_sim` runs the main code
+statement by statement, a definition doing nothing on either side.
 What is missing for the full statement:
-* routine definitions: that the image `Loader.load` makes of a script with `defRoutine`
-  statements satisfies `Sim.RoutinesAt` and has the main code, with its jumps shortened around the
-  extracted routines, equal to the code of the script without the definitions (the third example
-  below checks this for one script by evaluation);
+* routine definitions nested inside `if` / `repeat` / matrix bodies: there the loader does change
+  jumps of the enclosing statement's code (those that span the extracted routine), so the code the
+  simulation lemmas see is not `genStmt st` but its relocation;
 * calls in the arguments of `printf` (values already queued for the `printf` would have to survive
   the call), and value calls of routines that may run off their end (see `V` above);
 Restrictions of the fragment that are forced by the MODEL (source semantics and machine disagree
@@ -374,6 +395,134 @@ theorem C01_gen_sim_loaded (b : Block) (hb : FragBlock V b) (code : List Instr)
       (Vm.finish (run (Loader.load code) k (Vm.init lights))).trace = .flush :: σ'.vm.trace := by
   rw [load_fragment b hb code hcode]
   exact C01_gen_sim_program b hb code hcode f lights σ' h
+
+/-- the main code of a script with top-level routine definitions: the definitions do nothing when
+they are reached (the loader has moved their code away), the other statements are simulated one
+after the other -/
+theorem Sim.top_sim (img : Image) (R : List (String × Sem.Routine)) (hR : RoutinesAt V img R) :
+    ∀ (b : Block), TopBlock V b → NoBrk (genBlock b) → ∀ (f : Nat) (σ σ' : S) (s : State) (pc : Nat),
+      Sim ⟨none, R⟩ {} σ s → s.pc = (pc : Int) → CodeAt img pc (mainOf (itemsOf b)) →
+      execBlock f b σ = (.normal, σ') →
+      ∃ k, (run img k s).pc = ((pc + (mainOf (itemsOf b)).length : Nat) : Int) ∧
+        Sim ⟨none, R⟩ {} σ' (run img k s)
+  | .nil, _, _, f, σ, σ', s, pc, hsim, hpc, _, h => by
+    cases f with
+    | zero => simp [execBlock] at h
+    | succ f =>
+      simp only [execBlock, Prod.mk.injEq, true_and] at h
+      subst h
+      exact ⟨0, by simpa [itemsOf, mainOf, Vm.run] using hpc, hsim⟩
+  | .cons st rest, hb, hn, f, σ, σ', s, pc, hsim, hpc, hc, h => by
+    rw [genBlock] at hn
+    have ih := Sim.top_sim img R hR rest hb.2 hn.right
+    have h1 := hb.1
+    cases f with
+    | zero => simp [execBlock] at h
+    | succ f =>
+      simp only [execBlock] at h
+      cases hd : defOf st with
+      | some d =>
+        have hst := defOf_some hd
+        rw [hst] at h
+        cases f with
+        | zero => simp [execStmt] at h
+        | succ f =>
+          have e : execStmt (f + 1) (.defRoutine d.1 d.2.1 d.2.2) σ = (.normal, σ) := rfl
+          rw [e] at h
+          simp only [itemsOf, itemOf, hd, mainOf] at hc ⊢
+          exact ih (f + 1) σ σ' s pc hsim hpc hc h
+      | none =>
+        simp only [TopStmt, hd] at h1
+        simp only [itemsOf, itemOf, hd, mainOf] at hc ⊢
+        cases hx : execStmt f st σ with
+        | mk o σ1 =>
+          rw [hx] at h
+          have ho : o = .normal := by
+            cases o <;> first | rfl | (simp at h)
+          subst ho
+          simp only at h
+          have hcs : CodeAt img pc (resolve (genStmt st) pc (0 : Nat)) := by
+            rw [resolve_noBrk _ hn.left]
+            exact hc.left
+          obtain ⟨k1, hk1, hs1⟩ := C01_gen_sim_stmt img ⟨none, R⟩ hR st h1 f σ σ1 .normal s pc 0 {}
+            hsim hpc hcs hx (Or.inl rfl)
+          simp only [Target] at hk1
+          have hc2 := hc.right
+          simp only [List.length_map] at hc2
+          obtain ⟨k2, hk2, hs2⟩ := ih f σ1 σ' (run img k1 s) (pc + (genStmt st).length) hs1 hk1 hc2 h
+          refine ⟨k1 + k2, ?_, ?_⟩
+          · rw [run_add, hk2]
+            simp only [List.length_append, List.length_map]
+            congr 1
+            omega
+          · rw [run_add]
+            exact hs2
+
+/-- **whole scripts with routine definitions, through the loader.**  A script made of statements
+of the fragment and, at its top level, routine definitions whose bodies are in the fragment
+(`TopBlock`), accepted by the compiler's scope check (`Closed.wsBlock`: calls of known routines
+only, `return` only inside routines, `break` only inside loops), compiled by `Gen.genProgram` and
+loaded by `Loader.load` — which moves the routine bodies in front of the main code, relocates
+the main code's jumps and builds the routine table: if the source-level run (`Sem.run`) ends
+normally, the machine started in its initial state on the loaded image halts, and what
+`Machine.run` leaves behind (`Vm.finish`) is the source-level trace followed by the final flush
+of the output sink. -/
+theorem C01_gen_sim_top (Kn : List String) (b : Block) (hb : TopBlock V b)
+    (hws : Closed.wsBlock Kn false false false b = true) (code : List Instr)
+    (hcode : Gen.genProgram b = some code) (f : Nat) (lights : List Light) (σ' : S)
+    (h : Sem.run f b lights = (.normal, σ')) :
+    ∃ k, (run (Loader.load code) k (Vm.init lights)).status = .halted ∧
+      (Vm.finish (run (Loader.load code) k (Vm.init lights))).trace = .flush :: σ'.vm.trace := by
+  have hnb : NoBrk (genBlock b) := noBrk_of_mapM _ _ hcode
+  have hprog : code = progOf (itemsOf b) := by
+    rw [progOf_itemsOf, ← resolve_noBrk _ hnb 0 (0 : Nat)]
+    exact (resolve_of_mapM _ _ hcode 0 _).symm
+  have hok := itemsOK_of (V := V) b hb hws
+  have hR := routinesAt_top b hb hok hnb
+  rw [← hprog] at hR
+  have himg := load_items _ hok
+  rw [← hprog] at himg
+  generalize Loader.load code = img at hR himg
+  simp only [Sem.run] at h
+  -- the machine gets to the start of the main code
+  have hstart : ∃ (k0 : Nat) (pc : Nat), (run img k0 (Vm.init lights)).pc = (pc : Int) ∧
+      Sim ⟨none, (Sem.collect b).reverse⟩ {} { vm := Vm.init lights, routines := (Sem.collect b).reverse }
+        (run img k0 (Vm.init lights)) ∧ CodeAt img pc (mainOf (itemsOf b)) ∧
+      img.code.size = pc + (mainOf (itemsOf b)).length := by
+    by_cases hs : secsOf (itemsOf b) = []
+    · rw [if_pos hs] at himg
+      refine ⟨0, 0, rfl, Sim.init lights _, ?_, ?_⟩
+      · subst himg
+        have := CodeAt.intro [] (mainOf (itemsOf b)) [] []
+        simpa using this
+      · subst himg; simp
+    · rw [if_neg hs] at himg
+      generalize hrs : (secsOf (itemsOf b)).flatMap Closed.Load.render = rseg at himg
+      have hi : img.code[0]? = some (.jump .always ((rseg.length : Int) + 1)) := by
+        subst himg; simp
+      obtain ⟨k0, hk0, hs0⟩ := Sim.exec_jump (img := img) (pc := 0) .always ((rseg.length : Int) + 1)
+        (rseg.length + 1) (by simp) (Sim.init lights (Sem.collect b).reverse) rfl hi (by simp)
+      refine ⟨k0, rseg.length + 1, hk0, hs0, ?_, ?_⟩
+      · subst himg
+        have := CodeAt.intro (Instr.jump .always ((rseg.length : Int) + 1) :: rseg)
+          (mainOf (itemsOf b)) []
+          ((Closed.Load.secSpans 1 (secsOf (itemsOf b))).map fun p => (p.1, p.2.1)).reverse
+        simpa using this
+      · subst himg; simp; omega
+  obtain ⟨k0, pc, hpc0, hsim0, hc, hsize⟩ := hstart
+  obtain ⟨k, hk1, hk2⟩ := Sim.top_sim img _ hR b hb hnb f _ σ' _ pc hsim0 hpc0 hc h
+  refine ⟨k0 + k + 1, ?_⟩
+  rw [run_add, run_add, run_one _ _ hk2.running]
+  generalize run img k (run img k0 (Vm.init lights)) = t at hk1 hk2
+  have hstep : step img t = { t with status := .halted } := by
+    unfold step
+    have h0 : ¬ (t.pc < 0) := by omega
+    have h1 : t.pc.toNat = img.code.size := by omega
+    rw [if_neg (by simp [hk2.running]), if_neg h0, h1]
+    simp
+  rw [hstep]
+  refine ⟨rfl, ?_⟩
+  simp only [Vm.finish, hk2.unnamed, List.foldl_nil, State.emit, hk2.trace]
 
 /-! ## non-vacuity
 
@@ -1228,6 +1377,48 @@ example : (Vm.finish (Vm.run valImg 3000 (Vm.init []))).trace =
 example : (Sem.run 400 valWhole []).2.vm.trace.reverse =
     [.out (.int 19), .out (.int 24), .out (.int 16), .out (.int 25), .out (.str "big"), .out (.int 3),
      .newline, .out (.int 40), .out (.int 40)] := by decide +kernel
+
+/-! ### seventh example: the whole scripts of the third and of the sixth example — routine
+definitions at the top level, then the main code — through `C01_gen_sim_top`: compiled by
+`Gen.genProgram`, loaded by `Loader.load` (which moves the routines and builds the table), run
+from the machine's initial state to `halted`; nothing about the image is assumed. -/
+
+def valWholeCode : List Instr :=
+  [Instr.routine "sq"] ++ sqCode ++ [Instr.end_ "sq"] ++
+    ([Instr.routine "fact"] ++ factCode ++ [Instr.end_ "fact"] ++ valMainCode)
+
+theorem valWhole_top : TopBlock (fun _ => True) valWhole :=
+  ⟨⟨sqBody_frag, fun _ => by simp [sqBody, Block.ofList, EndsRet]⟩,
+   ⟨factBody_frag, fun _ => by simp [factBody, Block.ofList, EndsRet]⟩,
+   topBlock_of_frag valMain valMain_frag⟩
+
+theorem valWhole_code : Gen.genProgram valWhole = some valWholeCode :=
+  genProgram_cons_def sqBody_code (genProgram_cons_def factBody_code valMain_code)
+
+theorem valWhole_ws :
+    Closed.wsBlock (Wf.builtinNames ++ ["sq", "fact"]) false false false valWhole = true := by
+  decide +kernel
+
+theorem valWhole_sem : (Sem.run 400 valWhole []).1 = .normal := by decide +kernel
+
+example : ∃ k, (run (Loader.load valWholeCode) k (Vm.init [])).status = .halted ∧
+    (Vm.finish (run (Loader.load valWholeCode) k (Vm.init []))).trace =
+      .flush :: (Sem.run 400 valWhole []).2.vm.trace :=
+  C01_gen_sim_top _ valWhole valWhole_top valWhole_ws valWholeCode valWhole_code 400 []
+    (Sem.run 400 valWhole []).2 (eq_of_fst valWhole_sem)
+
+/-- the third example's script: the routine `down` is not called for its value (`V` empty), so
+its body need not end with a `return` -/
+theorem wholeScript_top : TopBlock (fun _ => False) wholeScript :=
+  ⟨⟨downBody_frag, fun h => h.elim⟩, topBlock_of_frag mainBlock mainBlock_frag⟩
+
+example : ∃ k, (run (Loader.load ([Instr.routine "down"] ++ downCode ++ [Instr.end_ "down"] ++ mainCode)) k
+      (Vm.init [])).status = .halted ∧
+    (Vm.finish (run (Loader.load ([Instr.routine "down"] ++ downCode ++ [Instr.end_ "down"] ++ mainCode)) k
+      (Vm.init []))).trace = .flush :: (Sem.run 200 wholeScript []).2.vm.trace :=
+  C01_gen_sim_top (Wf.builtinNames ++ ["down"]) wholeScript wholeScript_top (by decide +kernel) _
+    (genProgram_cons_def downBody_code mainBlock_code) 200 []
+    (Sem.run 200 wholeScript []).2 (eq_of_fst (by decide +kernel))
 
 /-! ### why the fragment excludes reading `result` and `setReg unitMode`: on these scripts the
 source semantics and the machine (both of the MODEL) disagree
